@@ -76,7 +76,7 @@ pub proof fn lemma_merge_with_empty_body(a: Map<String, Vec<String>>, b: Map<Str
 }
 impl CanonicalRequest {
 //@ fn canonical.rs impl CanonicalRequest :: from_request_parts
-//@ props C08 C01 C09 C10 C11 C12 C13 C15
+//@ props C08 C01 C09 C10 C11 C12 C13 C15 C17
 //@ ret r
 //@ replace 1 `content_type.content_type == APPLICATION_X_WWW_FORM_URLENCODED` => `string_eq_str(&content_type.content_type, APPLICATION_X_WWW_FORM_URLENCODED)`
 //   (the body's parameter map is a temporary of the for-loop header; it is let-bound so that the proof can name it, and its by-value
@@ -239,7 +239,7 @@ pub open spec fn accepted<G>(parts: Parts, body: Bytes, options: SignatureOption
 }
 
 //@ fn signature.rs sigv4_validate_request
-//@ props C08 C01 C02 C04 C13 C14 C15
+//@ props C08 C01 C02 C04 C13 C14 C15 C17
 //@ ret r
 //   (this Verus version gives no specification to the error conversion hidden in `?` when the error types differ; the three converting `?`
 //    are desugared to what they mean: `match e { Ok(v) => v, Err(e) => return Err(From::from(e)) }`)
